@@ -329,7 +329,7 @@ SPLIT = {"obj_int": ["obj_int#01", "obj_int#2"], "arr_scalar": ["arr_scalar#01",
 
 
 def gen_conditions(module, factory, tier, seed, groups=("T1", "T2", "T3", "T4"), rate=None, rest=True, only=None, witness_rate=0.15,
-                   extra_params=None, tags_from_template=True, timeout_scale=1.0, pairs_quick=30, heavy_all_drafts=False, heavy_L=2, heavy_quick=True):
+                   extra_params=None, tags_from_template=True, timeout_scale=1.0, pairs_quick=30, heavy_all_drafts=False, heavy_L=2, heavy_quick=True, t1_obj_small=False):
     """Standard cube-and-conquer enumeration of the template table for one property.
     rate: per-group sampling probability in the quick tier (seeded)."""
     import random
@@ -361,7 +361,7 @@ def gen_conditions(module, factory, tier, seed, groups=("T1", "T2", "T3", "T4"),
                 continue
             if t.group == "T1":
                 for k in t.kinds:
-                    cond(t, d, k)
+                    cond(t, d, "obj_int#01" if (quick and t1_obj_small and k == "obj_int") else k)
                 if rest and rest_type(t.kinds) is not None and (not quick or t.name not in ("enum", "const", "type", "type_list")):
                     cond(t, d, "rest", tags=())
             elif t.group == "T2":
